@@ -43,7 +43,8 @@ c_paths = Component("every-list-path",
                     "for each block path documented as a data-transform / execute list (http-get.client.metadata, http-get.server.output, "
                     "http-post.client.id, http-post.client.output, http-post.server.output, http-stager.server.output, "
                     "process-inject.execute, process-inject.transform-x86) and with a variant: random lists with argument-taking steps "
-                    "at exactly that path; as_dict == independent reading; 10 per path quick / 60 thorough")
+                    "at exactly that path; plus header / parameter / strrep pairs and options over 10 x 10 literals that begin or end with escaped "
+                    "quotes, backslashes or blanks; as_dict == independent reading; 10 per path quick / 60 thorough")
 
 
 def rand_list_text():
@@ -89,6 +90,21 @@ for _ in range(10 if TIER == "quick" else 60):
     except Exception as ex_:   # noqa
         ok, w = False, {"source": src, "error": repr(ex_)[:300]}
     c_paths.case(src, ok, sample=src[:80], witness=w)
+
+# pairs (header / parameter / strrep) and single options whose literals begin / end with escaped quotes or backslashes
+EDGE = ['"\\"5e1f-abc\\""', '"a\\""', '"\\""', '"\\\\"', '"x\\\\"', '"\\"\\""', '" lead"', '"trail "', '"\\\'q\\\'"', '""']
+for a in EDGE:
+    for b in EDGE:
+        src = ("http-get { client { header %s %s; parameter %s %s; } } stage { transform-x64 { strrep %s %s; } set name %s; } "
+               "http-config { header %s %s; set headers %s; }") % (a, b, b, a, a, b, b, b, a, a)
+        try:
+            got = C2Profile.from_text(src).as_dict()
+            want = profilegen.dict_of_tokens(profilegen.tokenize(src))
+            ok = got == want
+            w = {"source": src, "got": repr(got)[:500], "want": repr(want)[:500]}
+        except Exception as ex_:   # noqa
+            ok, w = False, {"source": src, "error": repr(ex_)[:300]}
+        c_paths.case(("pairs", a, b), ok, sample=src[:80], witness=w)
 
 # ---------------------------------------------------------------- builder API vs text
 c_build = Component("builder-equals-parsed-text",
